@@ -99,6 +99,10 @@ def case_strategy(draw, tier):
         "comments_via": draw(st.sampled_from(["constructor", "constructor", "appended"])),
         # the tree was already written once (in some form) with other coordinates and radii, and was then edited in place
         # (whole columns, slices, or node by node through handles) before the write that is judged
+        # a comment that repeats the text of the writer's own source header, or one that occurs twice
+        "echo": draw(st.sampled_from([None, None, None, "header", "header-twice", "duplicate"])),
+        # the process has just failed to read another file part-way (the caller caught the error)
+        "failed_read_before": draw(st.sampled_from([None, None, None, "rows-then-garbage", "truncated-row"])),
         "written_before": draw(st.sampled_from([None, None, "text", "path", "text-twice"])),
         "edit_via": draw(st.sampled_from(["column", "slices", "handles"])),
         # a stream handed over positioned at the start of the SWC text, with other material before that position
@@ -149,6 +153,19 @@ def run_case(case, ctx):
     t = gen_tree.materialize(case["tree"])
     parents = t["parents"]
     n = len(parents)
+    if case.get("echo"):
+        # comments that coincide with the header the writer adds (or with each other): every one of them comes back
+        src_name = case["source"] if isinstance(case["source"], str) else (case["tree_source"] or "Unknown")
+        extra = {"header": [f"source: {src_name}"], "header-twice": [f"source: {src_name}", f" source: {src_name}"],
+                 "duplicate": ["measured twice", "measured twice"]}[case["echo"]]
+        pos = len(case["comments"]) // 2
+        case = dict(case, comments=case["comments"][:pos] + extra + case["comments"][pos:])
+        ctx.cls("comment-equal-to-the-source-header-or-to-another-comment")
+    if case.get("failed_read_before"):
+        from vlib import gen_swc
+
+        gen_swc.fail_some_reads(ctx.tmpdir, case["failed_read_before"], ("str", "path") if case["kind"] != "bytes" else ("path",))
+        ctx.cls("read-after-a-failed-read")
     via = case.get("comments_via", "constructor")
     if via == "appended":
         decoy = gen_tree.build_tree({"parents": [-1, 0], "x": [0.0, 1.0], "y": [0.0, 0.0], "z": [0.0, 0.0], "r": [1.0, 1.0], "type": [1, 3]},
@@ -282,5 +299,6 @@ SUBCHECKS = [
                   "single-node": 10, "blank-comment": 30, "non-ascii-comment": 20, "deep-or-large": 4,
                   "ids-beyond-2^24": 150, "type-code-beyond-a-byte": 100, "comments-appended-after-construction": 200,
                   "stored-as:utf-16": 30, "stored-as:utf-32": 30, "text-longer-than-1MiB": 4,
-                  "written-before-then-edited-in-place": 150, "stream-positioned-after-a-preamble": 60}),
+                  "written-before-then-edited-in-place": 150, "stream-positioned-after-a-preamble": 60,
+                  "comment-equal-to-the-source-header-or-to-another-comment": 150, "read-after-a-failed-read": 150}),
 ]
